@@ -60,6 +60,23 @@ Qed.
 Example signed_of_inverse_example : signed_of 12 ((-5) mod 2 ^ 12) = -5 /\ (-5) mod 2 ^ 12 = 4091.
 Proof. vm_compute. split; reflexivity. Qed.
 
+Lemma wf_rev l : wf l -> wf (rev l).
+Proof. unfold wf. intro H. apply Forall_rev. exact H. Qed.
+(* byte reversal (least-significant-byte-first fields) loses nothing: applied twice it is the identity on
+   every value that fits the bytes, and it keeps the value inside the same range *)
+Lemma reverse_bytes_involutive v k : 0 <= v < 2 ^ (8 * Z.of_nat k) ->
+  0 <= reverse_bytes v k < 2 ^ (8 * Z.of_nat k) /\ reverse_bytes (reverse_bytes v k) k = v.
+Proof.
+  intro Hv. unfold reverse_bytes.
+  assert (W : wf (rev (to_be k v))) by (apply wf_rev, to_be_wf).
+  assert (L : List.length (rev (to_be k v)) = k) by (rewrite rev_length; apply to_be_length).
+  split.
+  - pose proof (from_be_bound _ W) as Bd. unfold zlen in Bd. now rewrite L in Bd.
+  - pose proof (to_be_from_be _ W) as T. rewrite L in T. rewrite T, rev_involutive. now apply from_be_to_be.
+Qed.
+Example reverse_bytes_example : reverse_bytes 0x123456 3 = 0x563412.
+Proof. vm_compute. reflexivity. Qed.
+
 Section Field.
 Variables (B : list Z) (p n : Z) (env : env).
 Hypothesis Hwf : wf B.
